@@ -31,6 +31,10 @@ def fromBytes (b : List Nat) : Nat :=
 def encode (call : List Nat) : List Nat :=
   toBytes ((call.reverse.foldl (fun acc c => (acc * 40 + charVal c) % 2 ^ 64) 0))
 
+/-- `encode_callsign(callsign, strict = true)`: the first character without a digit (NUL padding included) throws `invalid_argument` -/
+def encodeStrict (call : List Nat) : Option (List Nat) :=
+  if call.all (fun c => charVal c != 0) then some (encode call) else none
+
 /-- the digit loop of `decode_callsign` as repaired: `while (encoded && index != 9)` — at most nine characters -/
 def digitsGo : Nat → Nat → List Nat
   | 0, _ => []
